@@ -255,6 +255,16 @@ def build_obj(kind, seed):
         return X
     if kind == "dfa":
         return U.random_dfa(rng, rng.randint(1, 3), rng.choice(["a", "ab", "ab", "01"]), prefix=rng.choice(["s", "q", "p"]))
+    if kind in ("nfa", "pda", "tm") and seed % 7 == 3:
+        # the ASCII default '_' as an ORDINARY symbol next to the glyph used as epsilon / blank (the default applies
+        # only when the glyph occurs nowhere in the description)
+        if kind == "nfa":
+            return U.random_nfa(rng, rng.randint(2, 3), rng.choice(["a_", "_", "_b"]), eps="ε", prefix=rng.choice(["s", "q"]))
+        if kind == "pda":
+            P, _ = U.random_pda(rng, rng.randint(1, 3), rng.choice(["a", "ab"]), rng.choice(["_", "X_", "_$"]),
+                                ntrans=rng.randint(2, 6), eps="ε", prefix=rng.choice(["s", "q"]))
+            return P
+        return U.random_tm(rng, rng.randint(1, 2), rng.choice(["a", "ab"]), rng.choice(["_", "x_"]), "□", rng.choice([0.1, 0.4]))
     if kind == "nfa":
         eps = rng.choice(["ε", "_", "e"])
         return U.random_nfa(rng, rng.randint(1, 3), rng.choice(["a", "ab"]), eps=eps, prefix=rng.choice(["s", "q"]))
